@@ -20,7 +20,9 @@ CLAIMED = {
             'Proved for all category values / all well-formed texts (no size bound): parse(print c) = c for every well-formed '
             'value; every well-formed text of a value (arbitrary redundant round/angle brackets, blanks between tokens) reads '
             'to that value, and the printed text is such a text; text with two unbracketed slashes at one level is rejected '
-            '(RuntimeError at top level, AssertionError inside brackets). Model (tokenizer, shift-reduce loop, printer) is '
+            '(RuntimeError at top level, AssertionError inside brackets); and carried to the output of the parser: every category '
+            'of every tree run returns is well-formed and reads back from its own text when the caller\'s categories and the unary '
+            'targets are (output_cats_roundtrip). Model (tokenizer, shift-reduce loop, printer) is '
             'diffed against Category.parse/str on ~45k texts per run incl. every shipped category string and a malformed '
             'stream; an independent recursive-descent reader is the oracle.',
             NOTE + 'inputs on which the real reader builds ill-typed objects are outside the model (reported as Unsupported, not compared).',
@@ -73,7 +75,9 @@ CLAIMED.update({
             'Also proved of the model of the whole call (`Lazy`: Lean rule functions + callbacks + lazily filled cache + search): '
             'lazy_first_parse_optimal, lazy_shipped_optimal_partial (both shipped grammars), lazy_pops_nonincreasing; the '
             'unrestricted forms of two statements were refuted (a tag column that is not an id of the table) and are kept with '
-            'their counterexamples.',
+            'their counterexamples. Full strength (lazy_optimal_full, lazy_failure_full): the first parse is optimal among ALL '
+            'complete derivations the rule functions license over the admitted supertags (stated over categories, independent '
+            'of the numbering and of what the search cached), and a failure with budget left means there is none.',
             SEARCH_NOTE, 'DESIGN.md §4 C01, §7'),
     'C02': (T_PROOF,
             'Proved: every returned item carries a licensed complete parse (leaves = input tokens in order with admitted tags, '
@@ -85,15 +89,16 @@ CLAIMED.update({
     'C03': (T_PROOF,
             'Proved for all categories with unary features: every English result is justified by the schema its label names '
             '(21-constructor inductive `Justified` stated with the declarative notions of C06), head always left, labels closed '
-            'under a 10-element table, features from the inputs, no bx/gbx over a bare N/NP, and completeness for identical '
-            'matched parts. Model diffed against en.apply_binary_rules on ~50k pairs per run (inventories, seen rules, exhaustive '
+            'under a 10-element table, features from the inputs, no bx/gbx over a bare N/NP, completeness for identical '
+            'matched parts, and type preservation (en_binary_closed / en_unary_closed: results on well-formed categories are '
+            'well-formed). Model diffed against en.apply_binary_rules on ~50k pairs per run (inventories, seen rules, exhaustive '
             'small universe, pattern-instantiated/perturbed); an independent per-label schema checker is the oracle.',
             NOTE, 'DESIGN.md §4 C03'),
     'C04': (T_PROOF,
             'Proved for all categories with three-part features: every Japanese result is justified by the schema its symbol '
             'names (crossed composition keeps the backward slash, generalised composition keeps outer slashes/arguments), head '
             'always right, labels closed, feature triples from the inputs, unary steps labelled by shape (ADNext/ADNint/ADV0-2/'
-            'OTHER). Model diffed against ja.apply_binary_rules / apply_unary_rules; schema checker + shape-label oracle.',
+            'OTHER), type preservation (ja_binary_closed / ja_unary_closed). Model diffed against ja.apply_binary_rules / apply_unary_rules; schema checker + shape-label oracle.',
             NOTE, 'DESIGN.md §4 C04'),
     'C09': (T_PROOF,
             'Proved: the priority of every returned item equals the model score of its derivation (leaf tags + attachment of every '
@@ -104,7 +109,7 @@ CLAIMED.update({
     'C10': (T_PROOF,
             'Proved for n-best mode with step budget left: no unreturned licensed parse scores more than a returned one, fewer '
             'than k results means all parses were returned, returned derivations are pairwise distinct, results sorted, at most '
-            'k (also for the lazy model: lazy_nbest_topk). Diffed against the real C++; oracle = full enumeration (k largest '
+            'k (also for the lazy model: lazy_nbest_topk, and against all derivations the rule functions license: lazy_nbest_full). Diffed against the real C++; oracle = full enumeration (k largest '
             'scores, distinctness, order) and, on inexact float32 scores, order and distinctness of the reported list.',
             SEARCH_NOTE, 'DESIGN.md §4 C10'),
     'C11': (T_PROOF,
